@@ -73,6 +73,10 @@ def cases(draw):
     cfg['n_eff'] = draw(st.sampled_from([100, 1000]))
     if spec['family'] == 'wrap':
         cfg['periodic'] = [0]
+    if draw(st.integers(0, 3)) == 0:
+        # the checkpoint path given to the sampler is a symbolic link (into a
+        # scratch area, as on clusters): see prep_work
+        cfg['ext'] = 'link'
     return dict(spec=spec, cfg=cfg,
                 batches=draw(st.sampled_from([10, 14, 20])),
                 pick=draw(st.integers(0, 2 ** 31)))
@@ -96,6 +100,18 @@ def child(case_path, work, snaps, mode=None, trace_path=None, inject=None,
                           cwd=cwd or VERIF, timeout=600)
 
 
+def prep_work(work, case):
+    """State of the run directory before the script starts.  For 'link' the
+    checkpoint path is a symbolic link to a file that does not exist yet in a
+    sub-directory; created here, outside the traced child, so the syscall
+    model (which is keyed by path name) sees only the sampler's own
+    operations on that name."""
+    if case['cfg'].get('ext') == 'link':
+        os.makedirs(os.path.join(work, 'store'), exist_ok=True)
+        os.symlink(os.path.join('store', 'real.hdf5'),
+                   os.path.join(work, sl.ckpt_name(case['cfg'])))
+
+
 def run_case(case, n_resumes=3, n_kills=2):
     res = Result()
     base = tempfile.mkdtemp(prefix='nvc06-',
@@ -106,6 +122,7 @@ def run_case(case, n_resumes=3, n_kills=2):
         cpath = os.path.join(base, 'case.json')
         tpath = os.path.join(base, 'trace.txt')
         os.makedirs(work)
+        prep_work(work, case)
         with open(cpath, 'w') as f:
             json.dump(case, f)
         out = child(cpath, work, snaps, trace_path=tpath)
@@ -285,6 +302,7 @@ def run_case(case, n_resumes=3, n_kills=2):
             d = os.path.join(base, 'kill-%d' % k)
             w2 = os.path.join(d, 'work')
             os.makedirs(w2)
+            prep_work(w2, case)
             t2 = os.path.join(d, 'trace.txt')
             child(cpath, w2, os.path.join(d, 'snaps'), trace_path=t2,
                   inject=('pwrite64', nth))
